@@ -126,7 +126,11 @@ class RollingReduction(Expr):
                 groupby_slice=self.groupby_slice,
             )
 
-        if self.kwargs.get("center"):
+        if self.kwargs.get("center") and not isinstance(self.window, Integral):
+            # a centered time-based window reaches at most half of the window
+            # to either side of a row
+            before = after = pd.Timedelta(self.window)
+        elif self.kwargs.get("center"):
             before = self.window // 2
             after = self.window - before - 1
         elif not isinstance(self.window, int):
